@@ -54,7 +54,7 @@ Apply(e) ==
     \/ e.op = "commitnotify" /\ CommitAndNotify(e.x, e.t, {})
     \/ e.op = "abandon"      /\ Abandon(e.x)
     \/ e.op = "chans"        /\ Observe(Range(e.closed))
-    \/ e.op = "panic"        /\ Panic
+    \/ e.op \in {"panic", "nop"} /\ Panic
 
 \* name of the first invariant that the step to the primed state violates
 HasItems == {"prefix", "lowerbound", "iterator", "all", "iterall"}
